@@ -131,20 +131,20 @@ def do_import3(agent_dir, prop):
         print("imported", bid)
 
 
-def do_import5(agent_dir, prop):
+def do_import5(agent_dir, prop, rnd="5"):
     """Round 5: out-<PROP>/ holds break1.diff + demo1.py and break2.diff + demo2.py (two NEW kinds of breaking change; the
     agent was given the list of everything earlier rounds had tried)."""
     for n in (1, 2):
         if not os.path.exists(os.path.join(agent_dir, f"break{n}.diff")):
             continue
-        sid = f"{prop}-r5s{n}"
+        sid = f"{prop}-r{rnd}s{n}"
         d = os.path.join(SEEDED, sid)
         os.makedirs(d, exist_ok=True)
         shutil.copy(os.path.join(agent_dir, f"break{n}.diff"), os.path.join(d, "patch.diff"))
         shutil.copy(os.path.join(agent_dir, f"demo{n}.py"), os.path.join(d, "demo.py"))
         if os.path.exists(os.path.join(agent_dir, "NOTES.md")):
             shutil.copy(os.path.join(agent_dir, "NOTES.md"), os.path.join(d, "agent_notes.md"))
-        json.dump({"id": sid, "property": prop, "demo_kind": "script", "source": "round 5: independent sub-agent given the property text, a scratch worktree and the list of changes earlier rounds had already tried; asked for two new kinds of subtle breaking change"}, open(os.path.join(d, "meta.json"), "w"), indent=1)
+        json.dump({"id": sid, "property": prop, "demo_kind": "script", "source": f"round {rnd}: independent sub-agent given the property text, a scratch worktree and the list of changes earlier rounds had already tried; asked for two new kinds of subtle breaking change"}, open(os.path.join(d, "meta.json"), "w"), indent=1)
         print("imported", sid)
 
 
@@ -224,6 +224,9 @@ def main():
         return
     if sys.argv[1] == "import5":
         do_import5(sys.argv[2], sys.argv[3])
+        return
+    if sys.argv[1] == "import6":
+        do_import5(sys.argv[2], sys.argv[3], "6")
         return
     if sys.argv[1] == "import4":
         do_import4(sys.argv[2], sys.argv[3], sys.argv[4])
